@@ -655,8 +655,8 @@ def property_checks(spec, res, first_only=False) -> list[Failure]:
     if spec.get("pre"):
         shape += f",target_db after {len(spec['pre'])} earlier estimation(s) of order " + "/".join(str(st["p"]) for st in spec["pre"])
 
-    def fail(key, what, observed=None, required=None, v=0):
-        fails.append(Failure(key + tag, f"{what} [{shape}, variant {v}]", {"spec": spec, "variant": v}, observed, required,
+    def fail(key, what, observed=None, required=None, v=0, tagged=True):
+        fails.append(Failure(key + (tag if tagged else ""), f"{what} [{shape}, variant {v}]", {"spec": spec, "variant": v}, observed, required,
                              repro_text(spec)))
 
     if "error" in res:
@@ -734,11 +734,11 @@ def property_checks(spec, res, first_only=False) -> list[Failure]:
             mx_ = a.get("maxabs")
             if not isinstance(mx_, (int, float)) or isinstance(mx_, bool) or not abs(mx_ - rho) <= 1e-9 * (1 + rho):
                 fail("max_abs_eigenvalue", "reported maximum modulus of the eigenvalues is not the spectral radius of the "
-                     "companion matrix", repr(mx_), float(rho), v)
+                     "companion matrix", repr(mx_), float(rho), v, tagged=False)
             if abs(rho - 1.0) >= 1e-7 and (not isinstance(a.get("stable"), (bool, np.bool_))
                                            or bool(a["stable"]) != bool(rho < 1)):
                 fail("stability", f"reported stability contradicts the companion matrix (spectral radius {rho:.9g})",
-                     repr(a.get("stable")), bool(rho < 1), v)
+                     repr(a.get("stable")), bool(rho < 1), v, tagged=False)
             if rho < 0.98:
                 Sg = np.zeros((np_, np_)); Sg[:n, :n] = cov
                 Om = np.linalg.solve(np.eye(np_ * np_) - np.kron(T, T), Sg.reshape(-1)).reshape(np_, np_)
